@@ -270,7 +270,7 @@ def main():
     t = common.tier()
     chk = common.Check(PID, 'model_checking')
     line_codes = []
-    if t == 'thorough':
+    if True:
         names = {'_chunk_done', '_stream_files', '_chunk_producer', '_worker', '_download_chunk', '_write_chunk_ref'}
         line_codes = dsched.find_code(R.Repository.snapshot.__code__, names) + \
             dsched.find_code(R.Repository.restore.__code__, names) + [R.Repository._write_file_part.__code__]
@@ -291,6 +291,13 @@ def main():
                 plan.append((h, 2, False))
         for h in small:
             plan.append((dict(h, lines=True), 1, True))
+        # line-level preemption with two deviations on the smallest harnesses (unsynchronised accesses
+        # inside and between the closures that share state, incl. the per-file lock table and file writes)
+        plan.append(({'kind': 'restore', 'tree': 'restS', 'N': 2, 'be': 'plain', 'lines': True}, 2, True))
+        plan.append(({'kind': 'snapshot', 'tree': 'snapA', 'N': 2, 'be': 'plain', 'lines': True}, 2, True))
+    if t == 'quick':
+        plan.append(({'kind': 'restore', 'tree': 'restS', 'N': 2, 'be': 'plain', 'lines': True}, 1, True))
+        plan.append(({'kind': 'snapshot', 'tree': 'snapA', 'N': 2, 'be': 'plain', 'lines': True}, 1, True))
 
     tot = explore.Agg()
     per = []
